@@ -199,8 +199,12 @@ func runOutFile(seed int64, dir, outPath string, quick bool) {
 	// ---- Persist / WriteTo
 	profiles := []GenProfile{MergeyProfile(), RichProfile(), bigProfile()}
 	profiles[1].StoredHeavy = true
+	defMergerBuf := zap.DefaultFileMergerBufferSize
 	for pi := range profiles {
 		zap.DefaultChunkMode = 1026
+		// Persist and WriteTo do not go through the merger's buffer: its configured size must not matter
+		// (16 bytes for the small batch, 64 for the one above 4 KiB, the default for the other)
+		zap.DefaultFileMergerBufferSize = []int{16, defMergerBuf, 64}[pi%3]
 		batch := GenBatch(r, &profiles[pi], 0)
 		seg, _, err := plugin.New(MakeDocs(batch))
 		if err != nil {
@@ -234,10 +238,12 @@ func runOutFile(seed int64, dir, outPath string, quick bool) {
 					path := filepath.Join(dir, "of-persist.zap")
 					staleDest(path, k+3) // no-fault run (k = total) and every fourth offset: a longer stale file is in the way
 					var err error
+					before := dirNames(dir)
 					withFileLimit(k, func() { err = sb.Persist(path) })
+					stray := strayCount(before, path) // temporary files of the operation must be gone when it returns
 					ev.Res = classify(err)
-					ev.Exists = exists(path)
-					ev.Complete = err == nil && completeFile(path, total, len(batch))
+					ev.Exists = exists(path) || (err != nil && stray > 0)
+					ev.Complete = err == nil && stray == 0 && completeFile(path, total, len(batch))
 					if err != nil {
 						ev.Err = err.Error()
 					}
@@ -305,6 +311,7 @@ func runOutFile(seed int64, dir, outPath string, quick bool) {
 			nplans++
 			staleDest(path, nplans)
 			var err error
+			before := dirNames(dir)
 			do := func() { _, _, err = plugin.Merge(segs, drops, path, ch, rep) }
 			if limit >= 0 {
 				withFileLimit(limit, do)
@@ -312,10 +319,11 @@ func runOutFile(seed int64, dir, outPath string, quick bool) {
 				do()
 			}
 			setPollHook(nil)
+			stray := strayCount(before, path) // temporary files of the operation must be gone when it returns
 			ev.Res = classify(err)
 			ev.Prog = []ofStep{}
-			ev.Exists = exists(path)
-			ev.Complete = err == nil && completeFile(path, total, survivors)
+			ev.Exists = exists(path) || (err != nil && stray > 0)
+			ev.Complete = err == nil && stray == 0 && completeFile(path, total, survivors)
 			if err != nil {
 				ev.Err = err.Error()
 			}
